@@ -145,6 +145,10 @@ def run():
     section(rep, "system", lambda: _spglib_system(rep))
     rep.extra["explanation"] = ("MatID's contribution to the conventional cell is 'spglib's standardised cell moved by one tabulated normalizer': "
                                 "that application is executed symbolically for every group; the table lemmas carry the geometric meaning")
+    # spglib is asked about the analysed structure with the analyzer's tolerance; the simple getters are dataset look-ups (shared section)
+    from props import _sym as _symmod
+    from props._util import section as _section
+    _section(rep, "dataset", lambda: _symmod.dataset_section(rep))
     return rep
 
 
